@@ -641,8 +641,10 @@ class LookupBase:
     def lookup(self, required, provided, name='', default=None):
         if not isinstance(name, str):
             raise ValueError('name is not a string')
-        cache = self._getcache(provided, name)
+        # Resolve ``required`` before getting the cache, like the C
+        # implementation does (it can be a lazy sequence with side effects).
         required = tuple(required)
+        cache = self._getcache(provided, name)
         if len(required) == 1:
             result = cache.get(required[0], _not_in_mapping)
         else:
@@ -695,12 +697,12 @@ class LookupBase:
         return default
 
     def lookupAll(self, required, provided):
+        required = tuple(required)
         cache = self._mcache.get(provided)
         if cache is None:
             cache = {}
             self._mcache[provided] = cache
 
-        required = tuple(required)
         result = cache.get(required, _not_in_mapping)
         if result is _not_in_mapping:
             result = self._uncached_lookupAll(required, provided)
@@ -709,12 +711,12 @@ class LookupBase:
         return result
 
     def subscriptions(self, required, provided):
+        required = tuple(required)
         cache = self._scache.get(provided)
         if cache is None:
             cache = {}
             self._scache[provided] = cache
 
-        required = tuple(required)
         result = cache.get(required, _not_in_mapping)
         if result is _not_in_mapping:
             result = self._uncached_subscriptions(required, provided)
